@@ -346,6 +346,12 @@ void Ctx::begin(long idx, const std::string& kind)
   armCpuBudget();
   line("B " + std::to_string(idx) + " " + kind);
 }
+// a later phase of the same op: own CPU budget, visible in the event log
+void Ctx::phase(const std::string& name)
+{
+  armCpuBudget();
+  line("P " + name);
+}
 void Ctx::end(long idx, const std::string& digest) { line("A " + std::to_string(idx) + " " + digest); }
 void Ctx::violation(const std::string& sig, const std::string& detail) { line("V " + sig + "\t" + detail); }
 void Ctx::count(const std::string& name, long n) { line("C " + name + " " + std::to_string(n)); }
@@ -876,6 +882,15 @@ int simkitMain(int argc, char** argv)
     std::map<std::string, long> counters;
     std::set<uint64_t> fps;
     std::map<std::string, int> sigSeen;
+    // signatures of recorded findings: counted, not minimised again (each has a committed canary replay file
+    // that the driver replays on every run)
+    std::set<std::string> knownSigs;
+    if (const char* kf = getenv("SIMKIT_KNOWN_SIGS"))
+    {
+      std::ifstream f(kf);
+      std::string l;
+      while (std::getline(f, l)) if (!l.empty()) knownSigs.insert(l);
+    }
     std::vector<std::string> samples;
     long evaluations = 0, nops = 0, children = 0, nondet = 0, nviolRuns = 0;
     int shrunk = 0;
@@ -907,6 +922,18 @@ int simkitMain(int argc, char** argv)
         printf("H %ld %016lx %016lx\n", run, (unsigned long)r.loghash, (unsigned long)r2.loghash);
         if (r2.loghash != r.loghash) { nondet++; printf("NONDET run=%ld\n", run); writeFile(outdir + "/nondet_" + std::to_string(run) + ".plan", p.toText()); }
         continue;
+      }
+      if (!r.viol.empty() && !knownSigs.empty())
+      {
+        std::vector<Violation> fresh;
+        for (auto& v : r.viol)
+        {
+          if (knownSigs.count(v.sig)) sigSeen[v.sig]++;
+          else fresh.push_back(v);
+        }
+        if (fresh.size() != r.viol.size()) counters["runs.with-recorded-finding"]++;
+        if (fresh.empty()) continue;
+        // an unrecorded signature next to recorded ones: handled on the full result below
       }
       if (r.viol.empty()) continue;
       nviolRuns++;
@@ -947,6 +974,7 @@ int simkitMain(int argc, char** argv)
       {
         if (done.count(v.sig)) continue;
         done.insert(v.sig);
+        if (knownSigs.count(v.sig)) continue;
         int& seen = sigSeen[v.sig];
         seen++;
         if (seen > 1) continue; // one minimised witness per signature per worker
